@@ -190,6 +190,29 @@ def h_operand(c, pkg, case, op=None, size=None):
         if body is not None and len(body) == size + 3:
             c.check('encoding', sym_and(body[0] == OPC(pkg, 'OP_WRITE_CACHE'), body[1] == size, bytes_eq(body[2:2 + size], key),
                                         body[2 + size] == n))
+    elif case == 'write_cache_d':
+        # decimal cache key: the same `d` value encoding every other instruction uses (minimal signed big-endian, at
+        # least one byte), so that `write_cache d200 ..` and `read_cache d200` name the same key
+        k = c.int('key_n')
+        c.assume(sym_and(k >= 0, k < 2 ** 39))
+        cnt = c.bytes('count_x', 1)
+        r = _compile_ctx(pkg, f'write_cache d{k} x{cnt.hex()}')
+        c.check('accepted', r[0] == 'ok', got=repr(r)[:200])
+        body = _strip_ctx(c, r, 'write_cache d')
+        if body is not None:
+            c.check('encoding', len(body) >= 4 and sym_and(body[0] == OPC(pkg, 'OP_WRITE_CACHE'), body[1] == len(body) - 3,
+                                                           minimal_int_ok(k, body[2:-1]), body[-1] == cnt[0]), size=len(body) - 3)
+    elif case == 'write_cache_s':
+        text = c.bytes('text', size)
+        for x in items_of(text):
+            c.assume(mk_bool(z3.And(x > 0x20, x < 0x7f, x != 0x22, x != 0x27)))
+        for q in ('"', "'", ''):
+            r = _compile_ctx(pkg, f'write_cache s{q}{text.decode("utf-8")}{q} d1')
+            c.check('accepted', r[0] == 'ok', got=repr(r)[:200])
+            body = _strip_ctx(c, r, 'write_cache s')
+            if body is not None:
+                want = bytes([OPC(pkg, 'OP_WRITE_CACHE'), size]) + text + b'\x01'
+                c.check('encoding', len(body) == len(want) and bytes_eq(body, want), quote=q)
     elif case == 'fixed_x':
         # OP_DIV_FLOAT / OP_MOD_FLOAT x<4 bytes>, OP_MERKLEVAL x<32 bytes>
         want_n = 32 if op == 'OP_MERKLEVAL' else 4
@@ -270,6 +293,10 @@ def _real_stmt(inputs, params):
         return f'{op} s"' + inputs['text'].decode() + '"'
     if case == 'write_cache':
         return f"write_cache x{h('key')} d{inputs['count']}"
+    if case == 'write_cache_d':
+        return f"write_cache d{inputs['key_n']} x{h('count_x')}"
+    if case == 'write_cache_s':
+        return 'write_cache s"' + inputs['text'].decode() + '" d1'
     if case == 'fixed_x':
         return f"{op} x{h('payload')}"
     if case == 'swap':
@@ -341,6 +368,11 @@ def r_operand(inputs, params, obligation):
     elif case == 'write_cache':
         want = code('OP_WRITE_CACHE') + bytes([size]) + inputs.get('key', b'') + bytes([inputs['count']]) \
             if size <= 255 and inputs['count'] <= 255 else None
+    elif case == 'write_cache_d':
+        e = _ref_int(inputs['key_n'])
+        want = code('OP_WRITE_CACHE') + bytes([len(e)]) + e + inputs['count_x']
+    elif case == 'write_cache_s':
+        want = code('OP_WRITE_CACHE') + bytes([size]) + inputs['text'] + b'\x01'
     elif case == 'fixed_x':
         want = code(op) + inputs.get('payload', b'') if size == (32 if op == 'OP_MERKLEVAL' else 4) else None
     elif case == 'swap':
@@ -629,6 +661,9 @@ def _p_operand(tier):
         out.append({'case': 'sized_s', 'op': op, 'size': 3})
     for s in (0, 1, 9, 255, 256):
         out.append({'case': 'write_cache', 'size': s})
+    out.append({'case': 'write_cache_d'})
+    for s in (1, 3):
+        out.append({'case': 'write_cache_s', 'size': s})
     for op in ('OP_DIV_FLOAT', 'OP_MOD_FLOAT'):
         for s in (3, 4, 5):
             out.append({'case': 'fixed_x', 'op': op, 'size': s})
